@@ -1,16 +1,26 @@
 import numpy as np
 
+def _dtype_of(array):
+    # np.can_cast no longer accepts Python scalars (NumPy >= 2), so
+    # always test the dtype numpy would use to store the value.
+    try:
+        return array.dtype
+    except AttributeError:
+        return np.asarray(array).dtype
+
 def inexact_type(array):
     try:
-        return (not np.can_cast(array, int) and
-                (np.can_cast(array, np.dtype("complex")) or
-                 np.can_cast(array, float)))
-    except TypeError:
+        dtype = _dtype_of(array)
+        return (not np.can_cast(dtype, int) and
+                (np.can_cast(dtype, np.dtype("complex")) or
+                 np.can_cast(dtype, float)))
+    except (TypeError, ValueError):
         return False
 
 def is_linalg_type(array):
     try:
-        return (np.can_cast(array, np.dtype("complex")) or
-                np.can_cast(array, float))
-    except TypeError:
+        dtype = _dtype_of(array)
+        return (np.can_cast(dtype, np.dtype("complex")) or
+                np.can_cast(dtype, float))
+    except (TypeError, ValueError):
         return False
